@@ -77,11 +77,9 @@ static int print_s(void (*printchar_handler)(void *d, int c),
     int pc, len, space_count;
 
     pc = 0;
-    len = (int)strlen(str);
-    if (ops & OPS_PREC_IS_GIVEN)
-    {
-        len = MIN(max_len, len);
-    }
+    /* with a precision the array need not be terminated: look no further */
+    len = ops & OPS_PREC_IS_GIVEN ? (int)strnlen(str, max_len)
+                                  : (int)strlen(str);
     space_count = width > len ? width - len : 0;
 
     if (!(ops & OPS_FLAG_LEFT_ALIGN))
